@@ -147,6 +147,10 @@ def run(ctx):
         for r in res: ctx.add_result(r)
         ctx.functions.update(funcs)
     structs.adz_apply_obligations(ctx, 'C03')
+    # premise of completeness: a closure rule's lookup finds the contradicting node when it is on the branch (branch index contract)
+    from checks import index_ob
+    index_ob.index_obligations(ctx, 'C03.index')
+    index_ob.register_replayers(ctx, 'C03.index')
     # the step loop: Rule.target / Tableau.next return a target whenever some rule has one, for both values of every option
     from checks import selection
     selection.rule_target_obligations(ctx, 'C03')
